@@ -18,6 +18,30 @@ CHECKS = [
         "Property-based exploration: thousands of generated (config, exec request, outcome) cases through the production execv/execve wrappers; each must reach the recording real-exec exactly once with deep-equal arguments, with all logging already at the sinks, and return the scripted ret/errno. Held on everything generated; no absence proof.",
         "Trusts librecorder.so as the RTLD_NEXT target and the kernel for the real-exec cases; vectors that the kernel rejects (E2BIG) are only run with a scripted outcome.",
         "property-based testing (Hypothesis) with invariant oracle on a recording exec"),
+    chk("C04", "exploration",
+        "Property-based exploration of (output, syslog settings, message bytes/length up to the configurable maximum, filter chain, stdio type, repeated and real exec): every candidate sink is sampled at real-exec entry and at the end and must hold exactly the framed record(s) of the reference framing, nothing elsewhere.",
+        "Datagram outputs up to 65000 bytes, tty sinks up to 2000 bytes; /dev/log redirected by interposing connect(); 'syslog' output not built by default.",
+        "property-based testing (Hypothesis) against a reference framing model over all sinks"),
+    chk("C05", "exploration",
+        "Grammar-based generation of format strings and limits with data-source outputs steered to the limits; the file record / syslog ident / created file name is compared with an independent executable model of the format language (exact when the expansion fits, prefix/bound rules otherwise).",
+        "Only deterministic data sources are modelled; 'stop' and 'continue' after an unknown-data-source error are both accepted; truncated outputs may be any prefix of length in [L-8,L].",
+        "property-based testing (Hypothesis grammar) against a reference model of the format language"),
+    chk("C06", "exploration",
+        "Generated call histories in one process (ts and nts builds): each record is the byte delta of the log file and must equal the model for the CURRENT path/argv (prefix rule above the limit); ASan makes unterminated/stale buffers visible.",
+        "Second-thread steps only in the thread-safe build.",
+        "property-based testing over call histories (Hypothesis) with reference model"),
+    chk("C07", "exploration",
+        "Exhaustive enumeration of all chains of <=2 (quick) / <=3 (thorough) elements over a 10-spec alphabet x 3 real uids x tty/no tty, plus Hypothesis chains of 0..20 elements with permutation/duplication metamorphic variants; decision compared with the conjunction model computed from harness-observed state; drop => zero bytes at every sink, exec intact.",
+        "Chains without whitespace (documented); verdict oracle uses getresuid/ioctl//proc of the same process.",
+        "exhaustive small-scope enumeration + property-based testing with metamorphic relations"),
+    chk("C08", "exploration",
+        "Hypothesis INI grammar (sections, separators, comments, quotes, BOM, continuation, duplicates, all well-formed option values and garbage, numbers to 10^15) against an independent INI+option model via the library's option-value API; `snoopyctl conf` output fed back as config (round trip).",
+        "Lines > 1022 bytes and NUL bytes outside the modelled grammar; union of readings where the documentation is silent.",
+        "property-based testing (Hypothesis grammar) against a reference model + round-trip"),
+    chk("C11", "exploration",
+        "Generated histories (random and targeted carry-over shapes) of config rewrites/deletions/corruptions and calls in one process, ts and nts builds: every call's effect on every sink must equal that of the same call made first in a fresh process; ASan for double frees; heap equality between identical trailing calls in plain builds.",
+        "Data sources that legitimately differ between two processes (pid, tid, time) are excluded from formats; pid in the devlog prefix normalised.",
+        "stateful property-based testing with a fresh-process differential oracle"),
 ]
 
 _PENDING = "check not built yet in this stage of the work (planned in DESIGN.md section 3); will be claimed once its check exists"
